@@ -133,7 +133,17 @@ def add_special_ops(rng, spec, what):
     col = rng.choice(['state', 'cache', 'params', 'frozen_col', 'stats'])
     ops.insert(rng.randint(0, len(ops)), ('bad_write', col))
   elif what == 'leak':
-    ops.insert(rng.randint(0, len(ops)), ('leak',))
+    # the scope that escapes belongs to the root module or to a (nested) sub-module
+    def insert_leak(nd, depth):
+      ops_ = list(nd[2])
+      kids = [k for k, o in enumerate(ops_) if o[0] == 'child']
+      if kids and rng.random() < 0.6 and depth < 3:
+        k = rng.choice(kids)
+        ops_[k] = ops_[k][:2] + (insert_leak(ops_[k][2], depth + 1),) + ops_[k][3:]
+      else:
+        ops_.insert(rng.randint(0, len(ops_)), ('leak',))
+      return (nd[0], nd[1], tuple(ops_))
+    return dict(spec, root=insert_leak(node, 0))
   return dict(spec, root=(node[0], node[1], tuple(ops)))
 
 
